@@ -87,6 +87,7 @@ type fn struct {
 	tainted  bool   // calls, transitively, a function that recovers
 	grouped  bool   // adjacent parameters of one type share the type (`a, b int`)
 	lambda   bool   // a function literal bound to a local variable of the enclosing function
+	tailProc bool   // a small procedure that is little more than its last statement
 	lines    [2]int // first and last source line, filled after assembly
 }
 
@@ -2318,6 +2319,8 @@ type fnPlan struct {
 	depth     int
 	noUnc     bool   // the body must not raise uncatchable faults (lambda of a recovering function)
 	hdr, ftr  string // function literals: first and last line instead of the declaration's
+	onlyLog   bool   // of the package variables only glog is in scope
+	callProcs bool   // call the small tail procedures first, on several arguments
 }
 
 // genFunc writes one function. Layout: parameters, `acc`, optional defer,
@@ -2329,6 +2332,9 @@ func (g *gen) genFunc(p fnPlan) {
 	g.scope = g.scope[:0]
 	g.lvl = 0
 	for _, v := range g.globals {
+		if p.onlyLog && v.name != "glog" {
+			continue
+		}
 		g.scope = append(g.scope, v)
 	}
 	g.lvl = 1
@@ -2469,6 +2475,9 @@ func (g *gen) genFunc(p fnPlan) {
 		g.ret(true)
 		g.ind--
 		g.w("}")
+	}
+	if p.callProcs {
+		g.callTailProcs()
 	}
 	for g.budget > 0 {
 		g.stmt(p.depth)
@@ -2830,6 +2839,18 @@ func genProgram(idx int, tuples int) *program {
 		g.funcs = append(g.funcs, f)
 		p.funcs = append(p.funcs, f)
 	}
+	// ---- small procedures whose body is mostly the last statement; they cannot
+	// fail, so that every exported function may call them
+	for i := range 2 + r.Intn(3) {
+		f := &fn{name: nm.name(poolHelper, fmt.Sprintf("tp%d", i), 30), tailProc: true,
+			params: []*vr{{name: nm.params(1)[0], t: tInt, bound: 1 << 31}}}
+		g.f("procedure")
+		g.noPanic = true
+		g.genFunc(fnPlan{f: f, stmts: r.Intn(3), depth: 1, noUnc: true})
+		g.noPanic = false
+		g.funcs = append(g.funcs, f)
+		p.funcs = append(p.funcs, f)
+	}
 	// ---- exported functions
 	ne := 2 + r.Intn(2)
 	for i := 0; i < ne; i++ {
@@ -2852,7 +2873,7 @@ func genProgram(idx int, tuples int) *program {
 			f.rets = nil
 			g.f("exported-procedure")
 		}
-		plan := fnPlan{f: f, stmts: 4 + r.Intn(8), depth: 3}
+		plan := fnPlan{f: f, stmts: 4 + r.Intn(8), depth: 3, callProcs: true}
 		switch r.Intn(6) {
 		case 0:
 			plan.recovers = true
